@@ -85,7 +85,11 @@ def _is_constant_name(name: str) -> bool:
 def _get_value_string(value: ast.expr) -> str | None:
     """Get string representation of a value expression."""
     if isinstance(value, ast.Constant):
-        return repr(value.value)
+        try:
+            return repr(value.value)
+        except ValueError:
+            # Python refuses to render integers of more than 4300 digits in decimal
+            return hex(value.value)
     if isinstance(value, ast.Name):
         return value.id
     if isinstance(value, ast.Call):
